@@ -23,7 +23,6 @@ import (
 
 	"github.com/juev/hledger-lsp/internal/ast"
 	"github.com/juev/hledger-lsp/internal/include"
-	"github.com/juev/hledger-lsp/internal/parser"
 	"github.com/juev/hledger-lsp/internal/server"
 )
 
@@ -777,7 +776,7 @@ func (t *c09Trees) add(j *ast.Journal) int {
 }
 
 func (t *c09Trees) parse(text string) (int, int) {
-	j, errs := parser.Parse(text)
+	j, errs := hxParse(text)
 	return t.add(j), len(errs)
 }
 
@@ -1285,6 +1284,7 @@ func genC09(c *Ctx) {
 		s.close()
 	}
 	genC09Docs(c)
+	genC09DocsToggle(c)
 }
 
 // replayC09 rebuilds the scenario from a recorded op (texts, how each file is open, order,
